@@ -28,9 +28,13 @@ Definition skel (c : component) : N * N * bytes :=
 
 Definition method_skel (name : bytes) : list (N * N * bytes) :=
   [(0, 1, name ++ bs "Request"); (0, 1, name ++ bs "Response")].
+(* a command method without a response block returns google.api.HttpBody: no Response message *)
+Definition command_method_skel (m : method) : list (N * N * bytes) :=
+  (0, 1, md_name m ++ bs "Request")
+  :: match md_response m with Some _ => [(0, 1, md_name m ++ bs "Response")] | None => [] end.
 
 Definition command_skel (e : entity) (c : command) : list (N * N * bytes) :=
-  flat_map (fun m => method_skel (md_name m)) (c_methods c)
+  flat_map command_method_skel (c_methods c)
   ++ [(2, 1, command_service_name e c ++ bs "Service")].
 
 Definition summary_skel (e : entity) (s : summary) : list (N * N * bytes) :=
@@ -47,7 +51,8 @@ Definition spec_skeleton (e : entity) : list (N * N * bytes) :=
   ++ [(2, 1, Q ++ bs "QueryService")]
   ++ flat_map (command_skel e) (e_commands e)
   ++ [(0, 2, C ++ bs "EventMessage"); (2, 2, to_camel (C ++ bs "Publish") ++ bs "Topic")]
-  ++ flat_map (summary_skel e) (e_summaries e).
+  ++ flat_map (summary_skel e) (e_summaries e)
+  ++ map (fun sc => (0, 0, fst sc)) (e_schemas e).      (* objects declared in the entity block *)
 
 Lemma map_flat_map : forall {A B C} (f : B -> C) (g : A -> list B) l,
   map f (flat_map g l) = flat_map (fun x => map f (g x)) l.
@@ -63,6 +68,8 @@ Proof.
   intros e c. unfold command_components, service_components, command_skel.
   rewrite map_app, map_flat_map, flat_map_concat_map, map_map, <- flat_map_concat_map.
   cbn [map skel sv_name]. f_equal.
+  apply flat_map_ext'. intros m. unfold method_components, command_method_skel. cbn [fst map skel m_name].
+  destruct (md_response m); reflexivity.
 Qed.
 
 Lemma summary_components_skel : forall e s,
@@ -99,7 +106,7 @@ Proof.
   rewrite !map_app, !map_flat_map.
   rewrite (flat_map_ext' _ _ _ (command_components_skel e)).
   rewrite (flat_map_ext' _ _ _ (summary_components_skel e)).
-  rewrite query_components_skel, publish_components_skel.
+  rewrite query_components_skel, publish_components_skel, map_map.
   rewrite <- !app_assoc. reflexivity.
 Qed.
 
@@ -132,12 +139,58 @@ Lemma resolves_enum : forall D n j r q fl p t fi,
   In (true, n) D -> resolves D (mkF j (TEnum [] n) r q fl p t fi) = true.
 Proof. intros. unfold resolves, ref_resolves. cbn [f_type]. now apply resolves_local. Qed.
 
-Lemma resolves_ufield : forall D u, resolves D (of_ufield u) = true.
-Proof. intros D [n [pt k|p t] r]; reflexivity. Qed.
-Lemma resolves_ufields : forall D l, forallb (resolves D) (map of_ufield l) = true.
+(* scalar and key fields carry no reference *)
+Definition is_ref_field (u : ufield) : bool := match uf_kind u with KObject _ => true | _ => false end.
+Lemma resolves_ufield_scalar : forall D u, is_ref_field u = false -> resolves D (of_ufield u) = true.
+Proof. intros D [n [pt k|nm|p f t] r o] H; try reflexivity. discriminate. Qed.
+
+(* what the user's own object references must name for the file to compile *)
+Definition user_refs_ok (e : entity) (D : list (bool * bytes)) : bool :=
+  forallb (fun u => resolves D (of_ufield u)) (all_ufields e).
+
+(* membership of each group of user fields in [all_ufields] *)
+Lemma in_all_keys : forall e u, In u (map k_def (e_keys e)) -> In u (all_ufields e).
+Proof. intros e u H. unfold all_ufields. apply in_or_app. now left. Qed.
+Lemma in_all_data : forall e u, In u (e_data e) -> In u (all_ufields e).
+Proof. intros e u H. unfold all_ufields. apply in_or_app. right. apply in_or_app. now left. Qed.
+Lemma in_all_event : forall e ev u, In ev (e_events e) -> In u (ev_fields ev) -> In u (all_ufields e).
 Proof.
-  intros D l. induction l as [|u l IH]; [reflexivity|]. cbn [map forallb].
-  now rewrite resolves_ufield, IH.
+  intros e ev u He H. unfold all_ufields. do 2 (apply in_or_app; right). apply in_or_app. left.
+  apply in_flat_map. exists ev. split; assumption.
+Qed.
+Lemma in_all_request : forall e c m u, In c (e_commands e) -> In m (c_methods c) ->
+  In u (md_request m) -> In u (all_ufields e).
+Proof.
+  intros e c m u Hc Hm H. unfold all_ufields. do 3 (apply in_or_app; right). apply in_or_app. left.
+  apply in_flat_map. exists c. split; [assumption|]. apply in_flat_map. exists m. split; [assumption|].
+  apply in_or_app. now left.
+Qed.
+Lemma in_all_response : forall e c m r u, In c (e_commands e) -> In m (c_methods c) ->
+  md_response m = Some r -> In u r -> In u (all_ufields e).
+Proof.
+  intros e c m r u Hc Hm Hr H. unfold all_ufields. do 3 (apply in_or_app; right). apply in_or_app. left.
+  apply in_flat_map. exists c. split; [assumption|]. apply in_flat_map. exists m. split; [assumption|].
+  apply in_or_app. right. now rewrite Hr.
+Qed.
+Lemma in_all_summary : forall e sm u, In sm (e_summaries e) -> In u (s_fields sm) -> In u (all_ufields e).
+Proof.
+  intros e sm u Hs H. unfold all_ufields. do 4 (apply in_or_app; right). apply in_or_app. left.
+  apply in_flat_map. exists sm. split; assumption.
+Qed.
+Lemma in_all_schema : forall e sc u, In sc (e_schemas e) -> In u (snd sc) -> In u (all_ufields e).
+Proof.
+  intros e sc u Hs H. unfold all_ufields. do 5 (apply in_or_app; right).
+  apply in_flat_map. exists sc. split; assumption.
+Qed.
+Lemma get_keys_incl : forall e u, In u (get_keys e) -> In u (map k_def (e_keys e)).
+Proof.
+  intros e u H. unfold get_keys in H. apply in_map_iff in H. destruct H as [k [<- Hk]].
+  apply filter_In in Hk. apply in_map. exact (proj1 Hk).
+Qed.
+Lemma list_keys_incl : forall e u, In u (list_keys e) -> In u (map k_def (e_keys e)).
+Proof.
+  intros e u H. unfold list_keys in H. apply in_map_iff in H. destruct H as [k [<- Hk]].
+  apply filter_In in Hk. apply in_map. exact (proj1 Hk).
 Qed.
 
 Section Closed.
@@ -151,18 +204,30 @@ Section Closed.
   Hypothesis HEvent : In (false, component_name e (bs "Event")) D.
   Hypothesis HNested : forall ev, In ev (e_events e) ->
     In (false, event_type_name e ++ [46] ++ ev_name ev) D.
+  Hypothesis HUser : forall u, In u (all_ufields e) -> resolves D (of_ufield u) = true.
 
   Let ok := forallb (resolves D).
+
+  Lemma ok_ufields : forall l, (forall u, In u l -> In u (all_ufields e)) ->
+    forallb (resolves D) (map of_ufield l) = true.
+  Proof.
+    intros l H. apply forallb_forall. intros f Hf. apply in_map_iff in Hf.
+    destruct Hf as [u [<- Hu]]. apply HUser. now apply H.
+  Qed.
+  Lemma ok_get_keys : forallb (resolves D) (map of_ufield (get_keys e)) = true.
+  Proof. apply ok_ufields. intros u H. apply in_all_keys. now apply get_keys_incl. Qed.
+  Lemma ok_list_keys : forallb (resolves D) (map of_ufield (list_keys e)) = true.
+  Proof. apply ok_ufields. intros u H. apply in_all_keys. now apply list_keys_incl. Qed.
 
   Lemma ok_keys : ok (fields_of [CMsg 0 (keys_msg e)]) = true.
   Proof.
     unfold ok. cbn [fields_of flat_map keys_msg m_fields m_nested app]. rewrite !app_nil_r.
-    rewrite <- (map_map k_def of_ufield). apply resolves_ufields.
+    rewrite <- (map_map k_def of_ufield). apply ok_ufields. intros u H. now apply in_all_keys.
   Qed.
   Lemma ok_data : ok (fields_of [CMsg 0 (data_msg e)]) = true.
   Proof.
     unfold ok. cbn [fields_of flat_map data_msg m_fields m_nested app]. rewrite !app_nil_r.
-    apply resolves_ufields.
+    apply ok_ufields. intros u H. now apply in_all_data.
   Qed.
   Lemma ok_state : forall fl, ok (fields_of [CMsg 0 (state_msg e fl)]) = true.
   Proof.
@@ -187,7 +252,7 @@ Section Closed.
       apply resolves_object. now apply HNested.
     - apply forallb_forall. intros f Hf. apply in_flat_map in Hf. destruct Hf as [n [Hn Hf]].
       apply in_map_iff in Hn. destruct Hn as [ev [<- Hev]]. cbn [snd] in Hf.
-      apply in_map_iff in Hf. destruct Hf as [u [<- _]]. apply resolves_ufield.
+      apply in_map_iff in Hf. destruct Hf as [u [<- Hu]]. apply HUser. now apply (in_all_event e ev).
   Qed.
 
   Lemma ok_query : ok (fields_of (query_components e)) = true.
@@ -197,22 +262,28 @@ Section Closed.
     unfold page_request, query_request, page_response, plain_field, array_field, local_obj.
     destruct (match e_query e with Some q => q_events_in_get q | None => false end);
       repeat (progress (rewrite ?forallb_app; cbn [forallb app]));
-      rewrite !resolves_ufields;
+      rewrite !ok_get_keys, !ok_list_keys;
       rewrite !(resolves_object D _ _ _ _ _ _ _ _ HState);
       rewrite !(resolves_object D _ _ _ _ _ _ _ _ HEvent); reflexivity.
   Qed.
 
-  Lemma ok_command : forall c, ok (fields_of (command_components e c)) = true.
+  Lemma ok_command : forall c, In c (e_commands e) -> ok (fields_of (command_components e c)) = true.
   Proof.
-    intros c. unfold ok, command_components, service_components.
+    intros c Hin. unfold ok, command_components, service_components.
     rewrite fields_of_app. cbn [fields_of flat_map app]. rewrite app_nil_r.
     apply forallb_forall. intros f Hf. unfold fields_of in Hf.
     apply in_flat_map in Hf. destruct Hf as [comp [Hc Hf]].
     apply in_flat_map in Hc. destruct Hc as [m [Hm Hc]].
-    apply in_map_iff in Hm. destruct Hm as [md [<- _]].
+    apply in_map_iff in Hm. destruct Hm as [md [<- Hmd]].
     unfold method_components in Hc. cbn [fst In] in Hc.
-    destruct Hc as [<-|[<-|[]]]; cbn [m_fields m_nested flat_map app] in Hf;
-      rewrite app_nil_r in Hf; apply in_map_iff in Hf; destruct Hf as [u [<- _]]; apply resolves_ufield.
+    destruct Hc as [<-|Hc].
+    - cbn [m_fields m_nested flat_map app] in Hf. rewrite app_nil_r in Hf.
+      apply in_map_iff in Hf. destruct Hf as [u [<- Hu]]. apply HUser.
+      now apply (in_all_request e c md).
+    - destruct (md_response md) as [r|] eqn:Er; cbn [option_map In] in Hc; [|destruct Hc].
+      destruct Hc as [<-|[]]. cbn [m_fields m_nested flat_map app] in Hf. rewrite app_nil_r in Hf.
+      apply in_map_iff in Hf. destruct Hf as [u [<- Hu]]. apply HUser.
+      now apply (in_all_response e c md r).
   Qed.
 
   Lemma ok_publish : ok (fields_of (publish_components e)) = true.
@@ -224,18 +295,29 @@ Section Closed.
     reflexivity.
   Qed.
 
-  Lemma ok_summary : forall s, ok (fields_of (summary_components e s)) = true.
+  Lemma ok_summary : forall sm, In sm (e_summaries e) -> ok (fields_of (summary_components e sm)) = true.
   Proof.
-    intros s. unfold ok, summary_components, topic_components.
+    intros sm Hin. unfold ok, summary_components, topic_components.
     cbn [fields_of flat_map m_fields m_nested app forallb]. rewrite !app_nil_r.
-    rewrite resolves_ufields. reflexivity.
+    rewrite ok_ufields; [reflexivity|]. intros u H. now apply (in_all_summary e sm).
+  Qed.
+
+  Lemma ok_schemas : ok (fields_of (map (fun sc => CMsg 0 (mkMsg (fst sc) None false (map of_ufield (snd sc)) []))
+                                        (e_schemas e))) = true.
+  Proof.
+    unfold ok. apply forallb_forall. intros f Hf. unfold fields_of in Hf.
+    apply in_flat_map in Hf. destruct Hf as [comp [Hc Hf]].
+    apply in_map_iff in Hc. destruct Hc as [sc [<- Hsc]].
+    cbn [m_fields m_nested flat_map app] in Hf. rewrite app_nil_r in Hf.
+    apply in_map_iff in Hf. destruct Hf as [u [<- Hu]]. apply HUser. now apply (in_all_schema e sc).
   Qed.
 
   Lemma ok_flat_map : forall {A} (g : A -> list component) l,
-    (forall x, ok (fields_of (g x)) = true) -> ok (fields_of (flat_map g l)) = true.
+    (forall x, In x l -> ok (fields_of (g x)) = true) -> ok (fields_of (flat_map g l)) = true.
   Proof.
     intros A g l H. induction l as [|x l IH]; [reflexivity|].
-    cbn [flat_map]. rewrite fields_of_app. unfold ok in *. rewrite forallb_app, H, IH. reflexivity.
+    cbn [flat_map]. rewrite fields_of_app. unfold ok in *. rewrite forallb_app.
+    rewrite (H x (or_introl eq_refl)), IH; [reflexivity|]. intros y Hy. apply H. now right.
   Qed.
 
   Lemma ok_expand : forall fl, ok (fields_of (expand_with e fl)) = true.
@@ -246,7 +328,7 @@ Section Closed.
       with ([CMsg 0 (keys_msg e)] ++ [CMsg 0 (data_msg e)] ++ [status_enum e] ++ [CMsg 0 (state_msg e fl)]
             ++ [CMsg 0 (event_type_msg e)] ++ [CMsg 0 (event_msg e)]).
     rewrite !fields_of_app. unfold ok. rewrite !forallb_app. fold ok.
-    rewrite ok_keys, ok_data, ok_state, ok_event_type, ok_event, ok_query, ok_publish.
+    rewrite ok_keys, ok_data, ok_state, ok_event_type, ok_event, ok_query, ok_publish, ok_schemas.
     rewrite (ok_flat_map _ _ ok_command), (ok_flat_map _ _ ok_summary).
     reflexivity.
   Qed.
@@ -258,9 +340,12 @@ Lemma in_defined_head : forall e fl x,
   In x (defined (expand_with e fl)).
 Proof. intros e fl x H. unfold expand_with. rewrite defined_app. apply in_or_app. now left. Qed.
 
-Theorem expand_closed : forall e fl, closed (expand_with e fl) = true.
+(* closedness: the expansion's own references always resolve; the file is closed as soon as
+   the user's object references do *)
+Theorem expand_closed : forall e fl,
+  user_refs_ok e (defined (expand_with e fl)) = true -> closed (expand_with e fl) = true.
 Proof.
-  intros e fl. rewrite closed_unfold. apply ok_expand.
+  intros e fl HU. rewrite closed_unfold. apply ok_expand.
   - apply in_defined_head. cbn. auto.
   - apply in_defined_head. cbn. auto.
   - apply in_defined_head. cbn. auto 10.
@@ -273,14 +358,108 @@ Proof.
     cbn [defined flat_map keys_msg data_msg status_enum state_msg event_type_msg m_name m_nested map app].
     right. right. right. right. right. apply in_or_app. left.
     rewrite map_map. apply in_map_iff. exists ev. split; [reflexivity|assumption].
+  - unfold user_refs_ok in HU. rewrite forallb_forall in HU. exact HU.
 Qed.
 
-(* the compiler accepts exactly what entityNode.run accepts: closedness never fails *)
-Theorem compile_expand : forall e, compile e = expand e.
+(* without object references (scalars and keys only) nothing can dangle *)
+Theorem expand_closed_scalars : forall e fl,
+  forallb (fun u => negb (is_ref_field u)) (all_ufields e) = true -> closed (expand_with e fl) = true.
 Proof.
-  intros e. unfold compile, expand.
+  intros e fl H. apply expand_closed. unfold user_refs_ok. apply forallb_forall. intros u Hu.
+  rewrite forallb_forall in H. specialize (H u Hu). apply negb_true_iff in H.
+  now apply resolves_ufield_scalar.
+Qed.
+
+(* conversely a dangling user reference makes the file fail: every user field is emitted *)
+Lemma in_fields_of : forall c cs f, In c cs ->
+  In f (match c with CMsg _ m => m_fields m ++ flat_map snd (m_nested m) | _ => [] end) ->
+  In f (fields_of cs).
+Proof. intros c cs f Hc Hf. unfold fields_of. apply in_flat_map. exists c. split; assumption. Qed.
+
+Lemma fields_of_flat_map : forall {A} (g : A -> list component) l x f,
+  In x l -> In f (fields_of (g x)) -> In f (fields_of (flat_map g l)).
+Proof.
+  intros A g l x f Hx Hf. unfold fields_of in *. apply in_flat_map in Hf. destruct Hf as [c [Hc Hf]].
+  apply in_flat_map. exists c. split; [|assumption]. apply in_flat_map. exists x. split; assumption.
+Qed.
+
+Theorem closed_user_refs : forall e fl,
+  closed (expand_with e fl) = true -> user_refs_ok e (defined (expand_with e fl)) = true.
+Proof.
+  intros e fl H. rewrite closed_unfold in H. rewrite forallb_forall in H.
+  unfold user_refs_ok. apply forallb_forall. intros u Hu. apply H. clear H.
+  unfold all_ufields in Hu. unfold expand_with.
+  repeat (apply in_app_or in Hu; destruct Hu as [Hu|Hu]).
+  - (* keys *) apply (in_fields_of (CMsg 0 (keys_msg e))); [cbn; auto|].
+    cbn [keys_msg m_fields m_nested flat_map]. rewrite app_nil_r.
+    rewrite <- (map_map k_def of_ufield). now apply in_map.
+  - (* data *) apply (in_fields_of (CMsg 0 (data_msg e))); [cbn; auto|].
+    cbn [data_msg m_fields m_nested flat_map]. rewrite app_nil_r. now apply in_map.
+  - (* event fields *) apply in_flat_map in Hu. destruct Hu as [ev [Hev Hu]].
+    apply (in_fields_of (CMsg 0 (event_type_msg e))); [cbn; auto 10|].
+    cbn [event_type_msg m_fields m_nested]. apply in_or_app. right.
+    apply in_flat_map. exists (ev_name ev, map of_ufield (ev_fields ev)). split.
+    + apply in_map_iff. exists ev. split; [reflexivity|assumption].
+    + cbn [snd]. now apply in_map.
+  - (* command request / response *)
+    apply in_flat_map in Hu. destruct Hu as [c [Hc Hu]].
+    apply in_flat_map in Hu. destruct Hu as [m [Hm Hu]].
+    rewrite !fields_of_app. apply in_or_app. right. apply in_or_app. right. apply in_or_app. left.
+    apply (fields_of_flat_map _ _ c); [assumption|].
+    unfold command_components, service_components. rewrite fields_of_app. apply in_or_app. left.
+    apply (fields_of_flat_map fst _ (method_components (command_base e c) (md_name m) (md_verb m) (md_path m)
+      (map of_ufield (md_request m)) (option_map (map of_ufield) (md_response m)) 0)).
+    + apply in_map_iff. exists m. split; [reflexivity|assumption].
+    + unfold method_components. cbn [fst]. apply in_app_or in Hu. destruct Hu as [Hu|Hu].
+      * apply (in_fields_of (CMsg 1 (mkMsg (md_name m ++ bs "Request") None false (map of_ufield (md_request m)) [])));
+          [now left|]. cbn [m_fields m_nested flat_map]. rewrite app_nil_r. now apply in_map.
+      * destruct (md_response m) as [r|]; [|destruct Hu]. cbn [option_map].
+        apply (in_fields_of (CMsg 1 (mkMsg (md_name m ++ bs "Response") None false (map of_ufield r) [])));
+          [right; now left|]. cbn [m_fields m_nested flat_map]. rewrite app_nil_r. now apply in_map.
+  - (* summary fields *) apply in_flat_map in Hu. destruct Hu as [sm [Hs Hu]].
+    rewrite !fields_of_app. do 4 (apply in_or_app; right). apply in_or_app. left.
+    apply (fields_of_flat_map _ _ sm); [assumption|].
+    unfold summary_components, topic_components.
+    apply (in_fields_of (CMsg 2 (mkMsg (summary_topic_name e sm ++ bs "Message") None false
+             (plain_field "upsert" (TObject (bs "j5.messaging.v1") (bs "UpsertMetadata")) true
+              :: map of_ufield (s_fields sm)) []))); [now left|].
+    cbn [m_fields m_nested flat_map]. rewrite app_nil_r. right. now apply in_map.
+  - (* entity-level schemas *) apply in_flat_map in Hu. destruct Hu as [sc [Hs Hu]].
+    rewrite !fields_of_app. do 5 (apply in_or_app; right).
+    unfold fields_of. apply in_flat_map.
+    exists (CMsg 0 (mkMsg (fst sc) None false (map of_ufield (snd sc)) [])). split.
+    + apply in_map_iff. exists sc. split; [reflexivity|assumption].
+    + cbn [m_fields m_nested flat_map]. rewrite app_nil_r. now apply in_map.
+Qed.
+
+(* the compiler accepts what entityNode.run accepts as soon as the user's fields are fine *)
+Theorem compile_expand : forall e,
+  (forall fl, user_refs_ok e (defined (expand_with e fl)) = true) ->
+  fields_ok e = true -> query_params_ok e = true -> command_params_ok e = true -> compile e = expand e.
+Proof.
+  intros e HU Hok Hq Hc. unfold compile, expand.
   destruct (default_filters e _) as [fl|]; [|reflexivity].
-  destruct (nodup_bytes _); [|reflexivity]. now rewrite expand_closed.
+  destruct (nodup_bytes _); [|reflexivity]. now rewrite (expand_closed e fl (HU fl)), Hok, Hq, Hc.
+Qed.
+
+(* the only compile errors the expansion itself can cause are in the user's own fields: an
+   object reference that names nothing, an optional/required clash, a path parameter that is
+   not a request field; a reference made by entity.go is never the cause *)
+Theorem compile_errors : forall e cs, expand e = Ok cs ->
+  compile e = if user_refs_ok e (defined cs) then
+                if fields_ok e then
+                  if query_params_ok e && command_params_ok e then Ok cs
+                  else Err "missing field in request"
+                else Err "cannot be both required and optional"
+              else Err "type not found".
+Proof.
+  intros e cs H. unfold compile. rewrite H.
+  unfold expand in H. destruct (default_filters e _) as [fl|]; [|discriminate].
+  destruct (nodup_bytes _); [|discriminate]. inversion H; subst.
+  destruct (user_refs_ok e (defined (expand_with e fl))) eqn:EU.
+  - now rewrite (expand_closed e fl EU).
+  - destruct (closed (expand_with e fl)) eqn:Ec; [|reflexivity].
+    rewrite (closed_user_refs e fl Ec) in EU. discriminate.
 Qed.
 
 (* ---- the main file holds exactly Keys, Data, State, EventType, Event -------------- *)
@@ -308,19 +487,29 @@ Proof.
   intros m' Hm'. apply H. now right.
 Qed.
 
+Definition schema_msg (sc : bytes * list ufield) : omsg :=
+  mkMsg (fst sc) None false (map of_ufield (snd sc)) [].
+
 Theorem main_file_messages : forall e fl,
   msgs_of_file 0 (expand_with e fl) =
-    [keys_msg e; data_msg e; state_msg e fl; event_type_msg e; event_msg e].
+    [keys_msg e; data_msg e; state_msg e fl; event_type_msg e; event_msg e]
+    ++ map schema_msg (e_schemas e).
 Proof.
   intros e fl. unfold expand_with. rewrite !msgs_of_file_app.
   assert (Hq : msgs_of_file 0 (query_components e) = []).
   { unfold query_components. apply msgs0_service. intros m [<-|[<-|[<-|[]]]]; reflexivity. }
   assert (Hc : msgs_of_file 0 (flat_map (command_components e) (e_commands e)) = []).
   { apply msgs0_flat_map_nil. intros c. unfold command_components. apply msgs0_service.
-    intros m Hm. apply in_map_iff in Hm. destruct Hm as [md [<- _]]. reflexivity. }
+    intros m Hm. apply in_map_iff in Hm. destruct Hm as [md [<- _]].
+    unfold method_components. cbn [fst]. destruct (option_map _ (md_response md)); reflexivity. }
   assert (Hs : msgs_of_file 0 (flat_map (summary_components e) (e_summaries e)) = []).
   { apply msgs0_flat_map_nil. intros s. reflexivity. }
-  rewrite Hq, Hc, Hs. reflexivity.
+  assert (Hx : msgs_of_file 0 (map (fun sc => CMsg 0 (mkMsg (fst sc) None false (map of_ufield (snd sc)) []))
+                                   (e_schemas e)) = map schema_msg (e_schemas e)).
+  { induction (e_schemas e) as [|sc l IH]; [reflexivity|]. cbn [map msgs_of_file flat_map].
+    fold (msgs_of_file 0 (map (fun sc0 => CMsg 0 (mkMsg (fst sc0) None false (map of_ufield (snd sc0)) [])) l)).
+    rewrite IH. reflexivity. }
+  rewrite Hq, Hc, Hs, Hx. reflexivity.
 Qed.
 
 (* ---- the same entity annotation on every part ------------------------------------ *)
@@ -375,12 +564,18 @@ Lemma sel_expand : forall (sel : list component -> list bytes) P e fl,
   (forall c, Forall P (sel (command_components e c))) ->
   Forall P (sel (publish_components e)) ->
   (forall s, Forall P (sel (summary_components e s))) ->
+  (forall sc, sel [CMsg 0 (mkMsg (fst sc) None false (map of_ufield (snd sc)) [])] = []) ->
   Forall P (sel (expand_with e fl)).
 Proof.
-  intros sel P e fl Hnil Happ H1 H2 H3 H4 H5. unfold expand_with. rewrite !Happ.
+  intros sel P e fl Hnil Happ H1 H2 H3 H4 H5 H6. unfold expand_with. rewrite !Happ.
   apply Forall_app; split; [exact H1|]. apply Forall_app; split; [exact H2|].
   apply Forall_app; split; [now apply sel_flat_map|]. apply Forall_app; split; [exact H4|].
-  now apply sel_flat_map.
+  apply Forall_app; split; [now apply sel_flat_map|].
+  induction (e_schemas e) as [|sc l IH]; cbn [map]; [rewrite Hnil; constructor|].
+  change (CMsg 0 (mkMsg (fst sc) None false (map of_ufield (snd sc)) []) :: map _ l)
+    with ([CMsg 0 (mkMsg (fst sc) None false (map of_ufield (snd sc)) [])] ++
+          map (fun sc0 => CMsg 0 (mkMsg (fst sc0) None false (map of_ufield (snd sc0)) [])) l).
+  rewrite Happ, H6. exact IH.
 Qed.
 
 Theorem same_annotation : forall e fl,
@@ -393,21 +588,24 @@ Proof.
   assert (As : forall a b, service_entities (a ++ b) = service_entities a ++ service_entities b) by (intros; apply flat_map_app).
   assert (At : forall a b, topic_entities (a ++ b) = topic_entities a ++ topic_entities b) by (intros; apply flat_map_app).
   split; [|split].
-  - apply sel_expand; [reflexivity|exact Ap|cbn; repeat constructor| | |cbn; constructor|intros s; cbn; constructor].
+  - apply sel_expand; [reflexivity|exact Ap|cbn; repeat constructor| | |cbn; constructor|intros s; cbn; constructor|reflexivity].
     + unfold query_components. apply ann_service; [reflexivity|exact Ap| |cbn; constructor].
       intros m [<-|[<-|[<-|[]]]]; cbn; constructor.
     + intros c. unfold command_components. apply ann_service; [reflexivity|exact Ap| |cbn; constructor].
-      intros m Hm. apply in_map_iff in Hm. destruct Hm as [md [<- _]]. cbn. constructor.
-  - apply sel_expand; [reflexivity|exact As|cbn; constructor| | |cbn; constructor|intros s; cbn; constructor].
+      intros m Hm. apply in_map_iff in Hm. destruct Hm as [md [<- _]].
+      unfold method_components. cbn [fst]. destruct (option_map _ (md_response md)); cbn; constructor.
+  - apply sel_expand; [reflexivity|exact As|cbn; constructor| | |cbn; constructor|intros s; cbn; constructor|reflexivity].
     + unfold query_components. apply ann_service; [reflexivity|exact As| |cbn; repeat constructor].
       intros m [<-|[<-|[<-|[]]]]; cbn; constructor.
     + intros c. unfold command_components. apply ann_service; [reflexivity|exact As| |cbn; repeat constructor].
-      intros m Hm. apply in_map_iff in Hm. destruct Hm as [md [<- _]]. cbn. constructor.
-  - apply sel_expand; [reflexivity|exact At|cbn; constructor| | |cbn; repeat constructor|intros s; cbn; repeat constructor].
+      intros m Hm. apply in_map_iff in Hm. destruct Hm as [md [<- _]].
+      unfold method_components. cbn [fst]. destruct (option_map _ (md_response md)); cbn; constructor.
+  - apply sel_expand; [reflexivity|exact At|cbn; constructor| | |cbn; repeat constructor|intros s; cbn; repeat constructor|reflexivity].
     + unfold query_components. apply ann_service; [reflexivity|exact At| |cbn; constructor].
       intros m [<-|[<-|[<-|[]]]]; cbn; constructor.
     + intros c. unfold command_components. apply ann_service; [reflexivity|exact At| |cbn; constructor].
-      intros m Hm. apply in_map_iff in Hm. destruct Hm as [md [<- _]]. cbn. constructor.
+      intros m Hm. apply in_map_iff in Hm. destruct Hm as [md [<- _]].
+      unfold method_components. cbn [fst]. destruct (option_map _ (md_response md)); cbn; constructor.
 Qed.
 
 (* ---- the event oneof <-> the declared events --------------------------------------- *)
@@ -432,21 +630,21 @@ Theorem keys_in_declaration_order : forall e,
   map f_json (m_fields (keys_msg e)) = map (fun k => uf_name (k_def k)) (e_keys e).
 Proof.
   intros e. unfold keys_msg. cbn [m_fields]. rewrite map_map. apply map_ext.
-  intros [[n [pt k|p t] r] s]; reflexivity.
+  intros [[n [pt k|nm|p f t] r o] s]; reflexivity.
 Qed.
 
 Theorem primary_keys_required : forall e f,
   In f (m_fields (keys_msg e)) -> f_primary f = true -> f_required f = true.
 Proof.
   intros e f Hf Hp. unfold keys_msg in Hf. cbn [m_fields] in Hf.
-  apply in_map_iff in Hf. destruct Hf as [[[n [pt k|p t] r] s] [<- _]]; cbn in *; [discriminate|].
+  apply in_map_iff in Hf. destruct Hf as [[[n [pt k|nm|p fk t] r o] s] [<- _]]; cbn in *; [discriminate|discriminate|].
   subst p. apply orb_true_r.
 Qed.
 
 Definition primary_keys (e : entity) : list ufield := filter is_primary (map k_def (e_keys e)).
 
 Lemma primary_is_key : forall u, is_primary u = true -> is_key_field u = true.
-Proof. intros [n [pt k|p t] r] H; [discriminate|reflexivity]. Qed.
+Proof. intros [n [pt k|nm|p f t] r o] H; [discriminate|discriminate|reflexivity]. Qed.
 
 (* the primary keys are, in declaration order, among the Get/Events path keys ... *)
 Theorem get_keys_primary : forall e, filter is_primary (get_keys e) = primary_keys e.
@@ -528,11 +726,61 @@ Proof.
   apply join_app; intros H; apply map_eq_nil in H; revert H; apply split_slash_nonempty.
 Qed.
 
+(* ---- path.Join on clean operands is plain concatenation ------------------------------------- *)
+Definition plain_join (base rel : bytes) : bytes :=
+  match rel with [] => base | _ => base ++ [47] ++ rel end.
+Definition seg_ok (p : bytes) : bool := negb (is_nil p) && no_slash p.
+
+Lemma segments_app_slash : forall a b, segments (a ++ [47] ++ b) = segments a ++ segments b.
+Proof. intros a b. unfold segments. cbn [app]. now rewrite split_slash_app_slash, filter_app. Qed.
+
+Lemma segments_join : forall parts, parts <> [] -> Forall (fun p => seg_ok p = true) parts ->
+  segments (join [47] parts) = parts.
+Proof.
+  intros parts Hne HF. unfold segments. rewrite split_join.
+  - induction HF as [|p l Hp _ IH]; [reflexivity|]. cbn [filter].
+    unfold seg_ok in Hp. apply andb_true_iff in Hp. destruct Hp as [Hp _]. rewrite Hp.
+    f_equal. destruct l as [|q l']; [reflexivity|]. apply IH. discriminate.
+  - assumption.
+  - eapply Forall_impl; [|exact HF]. intros p Hp. unfold seg_ok in Hp.
+    apply andb_true_iff in Hp. exact (proj2 Hp).
+Qed.
+
+Lemma join_nonempty : forall parts, parts <> [] -> Forall (fun p => seg_ok p = true) parts ->
+  join [47] parts <> [].
+Proof.
+  intros [|p l] Hne HF; [congruence|]. inversion HF as [|? ? Hp _]; subst.
+  unfold seg_ok in Hp. apply andb_true_iff in Hp. destruct Hp as [Hp _].
+  destruct p as [|c p]; [discriminate|]. destruct l; cbn; discriminate.
+Qed.
+
+Lemma path_join_plain : forall base parts,
+  clean_path base = base -> base <> [47] -> Forall (fun p => seg_ok p = true) parts ->
+  path_join base (join [47] parts) = plain_join base (join [47] parts).
+Proof.
+  intros base parts Hc Hr HF. destruct parts as [|p l].
+  - cbn [join]. unfold path_join, plain_join. exact Hc.
+  - pose proof (join_nonempty (p :: l) ltac:(discriminate) HF) as Hne.
+    unfold path_join, plain_join. destruct (join [47] (p :: l)) as [|c r] eqn:Ej; [congruence|].
+    rewrite <- Ej. unfold clean_path. rewrite segments_app_slash, (segments_join (p :: l)) by (discriminate || assumption).
+    assert (Hs : segments base <> []).
+    { intros E. unfold clean_path in Hc. rewrite E in Hc. cbn in Hc. congruence. }
+    rewrite join_app by (assumption || discriminate).
+    rewrite app_assoc. fold (clean_path base). now rewrite Hc.
+Qed.
+
+Lemma key_path_seg_ok : forall ks, Forall (fun u => no_slash (uf_name u) = true) ks ->
+  Forall (fun p => seg_ok p = true) (key_path ks).
+Proof.
+  intros ks H. unfold key_path. apply Forall_map. eapply Forall_impl; [|exact H].
+  intros u Hu. unfold seg_ok. cbn [app is_nil negb andb no_slash forallb]. exact Hu.
+Qed.
+
 Definition brace (u : ufield) : bytes := [123] ++ to_snake (uf_name u) ++ [125].
 
 Lemma http_rule_path_keys : forall ks tail,
   Forall (fun u => no_slash (uf_name u) = true) ks ->
-  Forall (fun p => no_slash p = true) tail -> ks ++ map (fun p => mkU p (KScalar 0 []) false) tail <> [] ->
+  Forall (fun p => no_slash p = true) tail -> ks ++ map (fun p => mkU p (KScalar 0 []) false false) tail <> [] ->
   http_rule_path (join [47] (key_path ks ++ tail)) = join [47] (map brace ks ++ map conv_part tail).
 Proof.
   intros ks tail Hk Ht Hne. unfold http_rule_path. rewrite split_join.
@@ -550,6 +798,12 @@ Definition query_paths (e : entity) : list bytes :=
     http_rule_path (path_join (query_base e) (join [47] (key_path (list_keys e))));
     http_rule_path (path_join (query_base e) (join [47] (key_path (get_keys e) ++ [bs "events"]))) ].
 
+Lemma query_base_not_root : forall e, query_base e <> [47].
+Proof.
+  intros e H. unfold query_base in H. cbn [app] in H. inversion H as [H1].
+  apply app_eq_nil in H1. destruct H1 as [_ H1]. discriminate.
+Qed.
+
 Theorem query_service_methods : forall e,
   exists s, In (CSvc 1 s) (query_components e)
     /\ sv_name s = query_prefix e ++ bs "QueryService" /\ sv_ann s = SQuery (snake_name e)
@@ -566,6 +820,7 @@ Qed.
 (* Get = <base>/{k1}/.../{kn}, Events = <base>/{k1}/.../{kn}/events, the keys being the
    primary and shard keys in declaration order *)
 Theorem get_events_paths : forall e,
+  clean_path (query_base e) = query_base e ->
   Forall (fun k => no_slash (uf_name (k_def k)) = true) (e_keys e) ->
   nth 0 (query_paths e) [] =
     match get_keys e with
@@ -575,18 +830,22 @@ Theorem get_events_paths : forall e,
   /\ nth 2 (query_paths e) [] =
        http_rule_path (query_base e) ++ [47] ++ join [47] (map brace (get_keys e) ++ [bs "events"]).
 Proof.
-  intros e Hk. unfold query_paths. cbn [nth].
+  intros e Hc Hk. unfold query_paths. cbn [nth].
   assert (Hg : Forall (fun u => no_slash (uf_name u) = true) (get_keys e)).
   { unfold get_keys. apply Forall_map. apply Forall_forall. intros k Hin.
     apply filter_In in Hin. destruct Hin as [Hin _]. rewrite Forall_forall in Hk. now apply Hk. }
+  pose proof (query_base_not_root e) as Hr.
   split.
-  - destruct (get_keys e) as [|u ks] eqn:E; [reflexivity|].
-    unfold path_join. destruct (join [47] (key_path (u :: ks))) eqn:Ej.
+  - rewrite path_join_plain by (assumption || now apply key_path_seg_ok).
+    destruct (get_keys e) as [|u ks] eqn:E; [reflexivity|].
+    unfold plain_join. destruct (join [47] (key_path (u :: ks))) eqn:Ej.
     + exfalso. cbn [key_path map] in Ej. destruct (map _ ks); cbn in Ej; discriminate.
     + rewrite <- Ej. rewrite http_rule_path_app. f_equal. f_equal.
       pose proof (http_rule_path_keys (u :: ks) [] Hg (Forall_nil _)) as H.
       rewrite !app_nil_r in H. apply H. discriminate.
-  - unfold path_join. destruct (join [47] (key_path (get_keys e) ++ [bs "events"])) eqn:Ej.
+  - rewrite path_join_plain; [|assumption|assumption|].
+    2:{ apply Forall_app. split; [now apply key_path_seg_ok|repeat constructor]. }
+    unfold plain_join. destruct (join [47] (key_path (get_keys e) ++ [bs "events"])) eqn:Ej.
     + exfalso. destruct (key_path (get_keys e)) as [|a [|b l]]; cbn in Ej; try discriminate;
         apply app_eq_nil in Ej; destruct Ej; discriminate.
     + rewrite <- Ej. rewrite http_rule_path_app. f_equal. f_equal.
@@ -640,16 +899,37 @@ Proof.
   destruct (nodup_bytes _); split; try reflexivity; discriminate.
 Qed.
 
-(* default filters name declared statuses, one per requested filter, in order *)
+(* default filters name declared statuses, one per requested filter, in order, each by the
+   name its enum value carries *)
 Lemma default_filters_spec : forall e l fl, default_filters e l = Some fl ->
   Forall (fun f => existsb (bytes_eqb f) (e_status e) = true) l
-  /\ fl = map (fun f => to_screaming_snake (e_name e) ++ bs "_STATUS_" ++ to_screaming_snake f) l.
+  /\ fl = map (status_value_name (status_prefix e)) l.
 Proof.
   intros e l. induction l as [|f l IH]; intros fl H; cbn [default_filters] in H.
   - inversion H. split; [constructor|reflexivity].
   - unfold find_status in H. destruct (existsb (bytes_eqb f) (e_status e)) eqn:Ef; [|discriminate].
     destruct (default_filters e l) as [t|]; [|discriminate]. inversion H; subst.
     destruct (IH t eq_refl) as [HF ->]. split; [constructor; assumption|reflexivity].
+Qed.
+
+Lemma number_from_names : forall l i p, map fst (number_from i p l) = map (status_value_name p) l.
+Proof. induction l as [|s l IH]; intros i p; [reflexivity|]. cbn. now rewrite IH. Qed.
+
+(* ... hence every default filter IS the name of a value of the status enum *)
+Theorem default_filters_are_enum_values : forall e fl f,
+  default_filters e (requested_filters e) = Some fl -> In f fl ->
+  In f (map fst (status_values (status_prefix e) (e_status e))).
+Proof.
+  intros e fl f H Hf. destruct (default_filters_spec e _ fl H) as [HF ->].
+  apply in_map_iff in Hf. destruct Hf as [s [<- Hs]].
+  rewrite Forall_forall in HF. specialize (HF s Hs).
+  apply existsb_exists in HF. destruct HF as [s' [Hin Heq]]. apply bytes_eqb_eq in Heq. subst s'.
+  assert (G : In (status_value_name (status_prefix e) s)
+                 (map (status_value_name (status_prefix e)) (e_status e))) by (now apply in_map).
+  destruct (e_status e) as [|s0 r] eqn:Es; [destruct Hin|].
+  cbn [status_values]. destruct (has_suffix (bs "UNSPECIFIED") s0).
+  - cbn [map fst]. rewrite number_from_names. exact G.
+  - cbn [map fst]. right. rewrite number_from_names. exact G.
 Qed.
 
 (* ---- State / Event shapes, spelled out ------------------------------------------------------ *)
@@ -703,6 +983,339 @@ Qed.
 Theorem legacy_naming_refuted :
   exists e, ident (e_name e) = true /\ legacy_name e (bs "State") <> component_name e (bs "State").
 Proof.
-  exists (mkE (bs "foo.v1") (bs "FooS") [] [] [] [] [] [] [] None). split; [reflexivity|].
+  exists (mkE (bs "foo.v1") (bs "FooS") [] [] [] [] [] [] [] None []). split; [reflexivity|].
   vm_compute. discriminate.
+Qed.
+
+(* ---- the client API's StateEntity is consistent with the descriptors -------------------------- *)
+Theorem client_view_consistent : forall e fl,
+  let c := client_view e in
+  ce_name c = snake_name e
+  /\ ce_schema c = e_pkg e ++ [46] ++ m_name (state_msg e fl)
+  /\ ce_primary_key c = map uf_name (primary_keys e)
+  /\ ce_events c = map f_json (m_fields (event_type_msg e))
+  /\ length (ce_events c) = length (e_events e)
+  /\ map fst (ce_commands c) = map (fun cmd => command_service_name e cmd ++ bs "Service") (e_commands e)
+  /\ ce_query c = query_prefix e ++ bs "QueryService"
+  /\ map (fun m => http_rule_path (snd m)) (ce_query_methods c) = query_paths e
+  /\ map fst (ce_query_methods c) = [query_prefix e ++ bs "Get"; query_prefix e ++ bs "List"; query_prefix e ++ bs "Events"].
+Proof.
+  intros e fl. cbv zeta. unfold client_view.
+  cbn [ce_name ce_schema ce_primary_key ce_events ce_commands ce_query ce_query_methods].
+  repeat split.
+  - unfold event_type_msg. cbn [m_fields]. now rewrite map_map.
+  - now rewrite map_length.
+  - now rewrite map_map.
+Qed.
+
+(* ---- the generated query methods never miss a path field --------------------------------------- *)
+Lemma path_params_app : forall base rel,
+  path_params (base ++ [47] ++ rel) = path_params base ++ path_params rel.
+Proof.
+  intros base rel. unfold path_params. cbn [app]. rewrite split_slash_app_slash. apply flat_map_app.
+Qed.
+
+Lemma path_params_eq : forall r, path_params r = flat_map param_of (split_slash [] r).
+Proof. reflexivity. Qed.
+
+Lemma params_key_path : forall ks, flat_map param_of (key_path ks) = map uf_name ks.
+Proof.
+  induction ks as [|u ks IH]; [reflexivity|].
+  change (key_path (u :: ks)) with (([58] ++ uf_name u) :: key_path ks).
+  cbn [flat_map]. change (param_of ([58] ++ uf_name u)) with [uf_name u].
+  cbn [app map]. now rewrite IH.
+Qed.
+
+Lemma params_ok_keys : forall base ks tail extra,
+  clean_path base = base -> base <> [47] ->
+  path_params base = [] ->
+  Forall (fun u => no_slash (uf_name u) = true) ks ->
+  tail = [] \/ tail = [bs "events"] ->
+  params_ok (map uf_name ks ++ extra) (path_join base (join [47] (key_path ks ++ tail))) = true.
+Proof.
+  intros base ks tail extra Hc Hr Hb Hk Ht.
+  assert (Hparts : Forall (fun p => seg_ok p = true) (key_path ks ++ tail)).
+  { apply Forall_app. split; [now apply key_path_seg_ok|destruct Ht as [->| ->]; repeat constructor]. }
+  rewrite path_join_plain by assumption. unfold params_ok, plain_join.
+  destruct (join [47] (key_path ks ++ tail)) as [|c l] eqn:Ej; [now rewrite Hb|].
+  rewrite <- Ej. change (base ++ 47 :: join [47] (key_path ks ++ tail))
+    with (base ++ [47] ++ join [47] (key_path ks ++ tail)).
+  rewrite path_params_app, Hb. cbn [app]. rewrite path_params_eq, split_join.
+  - rewrite flat_map_app, params_key_path.
+    assert (Et : flat_map param_of tail = []) by (destruct Ht as [->| ->]; reflexivity).
+    rewrite Et, app_nil_r. apply forallb_forall. intros p Hp.
+    apply existsb_exists. exists p. split; [apply in_or_app; now left|apply bytes_eqb_refl].
+  - intros H. rewrite H in Ej. discriminate.
+  - apply Forall_app. split.
+    + unfold key_path. apply Forall_map. eapply Forall_impl; [|exact Hk]. intros u Hu. exact Hu.
+    + destruct Ht as [->| ->]; repeat constructor.
+Qed.
+
+Theorem query_params_always_ok : forall e,
+  clean_path (query_base e) = query_base e ->
+  path_params (query_base e) = [] ->
+  Forall (fun k => no_slash (uf_name (k_def k)) = true) (e_keys e) ->
+  query_params_ok e = true.
+Proof.
+  intros e Hc Hb Hk. unfold query_params_ok. fold (query_base e).
+  pose proof (query_base_not_root e) as Hr.
+  assert (Hg : Forall (fun u => no_slash (uf_name u) = true) (get_keys e)).
+  { unfold get_keys. apply Forall_map. apply Forall_forall. intros k Hin.
+    apply filter_In in Hin. destruct Hin as [Hin _]. rewrite Forall_forall in Hk. now apply Hk. }
+  assert (Hl : Forall (fun u => no_slash (uf_name u) = true) (list_keys e)).
+  { unfold list_keys. apply Forall_map. apply Forall_forall. intros k Hin.
+    apply filter_In in Hin. destruct Hin as [Hin _]. rewrite Forall_forall in Hk. now apply Hk. }
+  pose proof (params_ok_keys (query_base e) (get_keys e) [] [] Hc Hr Hb Hg (or_introl eq_refl)) as H1.
+  pose proof (params_ok_keys (query_base e) (list_keys e) [] [bs "page"; bs "query"] Hc Hr Hb Hl (or_introl eq_refl)) as H2.
+  pose proof (params_ok_keys (query_base e) (get_keys e) [bs "events"] [bs "page"; bs "query"] Hc Hr Hb Hg (or_intror eq_refl)) as H3.
+  rewrite !app_nil_r in H1. rewrite !app_nil_r in H2. rewrite H1, H2, H3. reflexivity.
+Qed.
+
+(* ---- several entities in one file ---------------------------------------------------------------- *)
+Lemma ref_resolves_mono : forall D D' t,
+  incl D D' -> ref_resolves D t = true -> ref_resolves D' t = true.
+Proof.
+  intros D D' t Hi H. unfold ref_resolves in *.
+  assert (L : forall (b : bool) n,
+            existsb (fun d => Bool.eqb (fst d) b && bytes_eqb (snd d) n) D = true ->
+            existsb (fun d => Bool.eqb (fst d) b && bytes_eqb (snd d) n) D' = true).
+  { intros b n Hx. apply existsb_exists in Hx. destruct Hx as [d [Hd Hp]].
+    apply existsb_exists. exists d. split; [now apply Hi|assumption]. }
+  destruct t as [pt k|p n|p n|p n]; [reflexivity| | |]; destruct p; try assumption; now apply L.
+Qed.
+
+Lemma closed_app : forall a b, closed a = true -> closed b = true -> closed (a ++ b) = true.
+Proof.
+  intros a b Ha Hb. rewrite closed_unfold in *. rewrite fields_of_app, defined_app, forallb_app.
+  apply andb_true_iff. split; apply forallb_forall; intros f Hf.
+  - rewrite forallb_forall in Ha. specialize (Ha f Hf). unfold resolves in *.
+    eapply ref_resolves_mono; [|exact Ha]. apply incl_appl, incl_refl.
+  - rewrite forallb_forall in Hb. specialize (Hb f Hf). unfold resolves in *.
+    eapply ref_resolves_mono; [|exact Hb]. apply incl_appr, incl_refl.
+Qed.
+
+Lemma compile_ok_inv : forall e cs, compile e = Ok cs -> expand e = Ok cs /\ closed cs = true.
+Proof.
+  intros e cs H. unfold compile in H. destruct (expand e) as [c| | |] eqn:E; try discriminate.
+  destruct (closed c) eqn:Ec; [|discriminate]. destruct (fields_ok e); [|discriminate].
+  destruct (query_params_ok e && command_params_ok e); [|discriminate]. inversion H; subst. auto.
+Qed.
+
+(* a file of entities compiles to the concatenation of the entities' own expansions ... *)
+Theorem compile_all_inv : forall es cs, compile_all es = Ok cs ->
+  exists l, Forall2 (fun e c => compile e = Ok c) es l /\ cs = concat l.
+Proof.
+  induction es as [|e r IH]; intros cs H; cbn [compile_all] in H.
+  - inversion H. exists []. split; [constructor|reflexivity].
+  - destruct (compile e) as [a| | |] eqn:Ea; try discriminate.
+    destruct (compile_all r) as [b| | |] eqn:Eb; try discriminate. inversion H; subst.
+    destruct (IH b eq_refl) as [l [HF ->]]. exists (a :: l). split; [constructor; assumption|reflexivity].
+Qed.
+
+(* ... which is closed as a whole: an entity's references never depend on its neighbours *)
+Theorem compile_all_closed : forall es cs, compile_all es = Ok cs -> closed cs = true.
+Proof.
+  induction es as [|e r IH]; intros cs H; cbn [compile_all] in H.
+  - inversion H. reflexivity.
+  - destruct (compile e) as [a| | |] eqn:Ea; try discriminate.
+    destruct (compile_all r) as [b| | |] eqn:Eb; try discriminate. inversion H; subst.
+    apply closed_app; [exact (proj2 (compile_ok_inv e a Ea))|now apply IH].
+Qed.
+
+(* ---- default base paths are literal: no ":name" parts, nothing rewritten ---------------------- *)
+Definition no_colon (s : bytes) : bool := forallb (fun c => negb (c =? 58)) s.
+
+Lemma join_cons2 : forall (sep x : bytes) l, l <> [] -> join sep (x :: l) = x ++ sep ++ join sep l.
+Proof. intros sep x [|y l] H; [congruence|reflexivity]. Qed.
+
+Lemma join_split : forall s cur, join [47] (split_slash cur s) = rev cur ++ s.
+Proof.
+  induction s as [|c s IH]; intros cur; cbn [split_slash].
+  - cbn. now rewrite app_nil_r.
+  - destruct (c =? 47) eqn:Ec.
+    + apply N.eqb_eq in Ec. subst c. rewrite join_cons2 by apply split_slash_nonempty.
+      rewrite IH. reflexivity.
+    + rewrite IH. cbn [rev]. now rewrite <- app_assoc.
+Qed.
+
+Lemma split_no_colon : forall s cur, no_colon s = true -> no_colon cur = true ->
+  Forall (fun p => no_colon p = true) (split_slash cur s).
+Proof.
+  induction s as [|c s IH]; intros cur Hs Hc; cbn [split_slash].
+  - constructor; [|constructor]. unfold no_colon in *. rewrite forallb_forall in *.
+    intros x Hx. apply Hc. now apply in_rev.
+  - cbn [no_colon forallb] in Hs. apply andb_true_iff in Hs. destruct Hs as [Hc0 Hs].
+    destruct (c =? 47).
+    + constructor; [|apply IH; [assumption|reflexivity]].
+      unfold no_colon in *. rewrite forallb_forall in *. intros x Hx. apply Hc. now apply in_rev.
+    + apply IH; [assumption|]. cbn [no_colon forallb]. now rewrite Hc0.
+Qed.
+
+Lemma conv_part_no_colon : forall p, no_colon p = true -> conv_part p = p /\ param_of p = [].
+Proof.
+  intros [|c p] H; [split; reflexivity|]. cbn [no_colon forallb] in H.
+  apply andb_true_iff in H. destruct H as [Hc _]. apply negb_true_iff in Hc.
+  unfold conv_part, param_of. rewrite Hc. split; reflexivity.
+Qed.
+
+Lemma parts_no_colon : forall l, Forall (fun p => no_colon p = true) l ->
+  map conv_part l = l /\ flat_map param_of l = [].
+Proof.
+  induction l as [|p l IH]; intros HF; [split; reflexivity|].
+  inversion HF as [|? ? Hp Hl]; subst. destruct (IH Hl) as [I1 I2].
+  destruct (conv_part_no_colon p Hp) as [C1 C2].
+  cbn [map flat_map]. rewrite I1, I2, C1, C2. split; reflexivity.
+Qed.
+
+Theorem no_colon_path : forall s, no_colon s = true -> http_rule_path s = s /\ path_params s = [].
+Proof.
+  intros s H. destruct (parts_no_colon _ (split_no_colon s [] H eq_refl)) as [E1 E2].
+  split.
+  - unfold http_rule_path. rewrite E1. apply join_split.
+  - exact E2.
+Qed.
+
+Lemma plain_not_colon : forall c, plain c = true -> negb (c =? 58) = true /\ negb (c =? 47) = true.
+Proof. intros c. unfold plain, is_cap, is_low, is_num. lia. Qed.
+
+Lemma ident_no_colon_slash : forall s, ident s = true -> no_colon s = true /\ no_slash s = true.
+Proof.
+  induction s as [|c s IH]; intros H; [split; reflexivity|].
+  cbn [ident forallb] in H. apply andb_true_iff in H. destruct H as [Hc Hs].
+  destruct (IH Hs) as [I1 I2]. destruct (plain_not_colon c Hc) as [P1 P2].
+  cbn [no_colon no_slash forallb]. rewrite P1, P2. split; assumption.
+Qed.
+
+(* an entity with an identifier name, a package without ':' and no baseUrlPath override has the
+   literal base /<pkg with slashes>/<snake name>/q *)
+Theorem default_query_base : forall e,
+  e_base_url e = [] -> ident (e_name e) = true -> no_colon (e_pkg e) = true ->
+  http_rule_path (query_base e) = query_base e /\ path_params (query_base e) = [].
+Proof.
+  intros e Hb Hi Hp. apply no_colon_path. unfold query_base, base_url. rewrite Hb.
+  unfold no_colon. rewrite !forallb_app. cbn [forallb].
+  assert (H1 : forallb (fun c => negb (c =? 58)) (map (fun c => if c =? 46 then 47 else c) (e_pkg e)) = true).
+  { unfold no_colon in Hp. rewrite forallb_forall in *. intros x Hx. apply in_map_iff in Hx.
+    destruct Hx as [c [<- Hc]]. specialize (Hp c Hc). destruct (c =? 46); [reflexivity|exact Hp]. }
+  rewrite H1. pose proof (ident_no_colon_slash _ (to_snake_ident _ Hi)) as [H2 _].
+  unfold snake_name. unfold no_colon in H2. rewrite H2. reflexivity.
+Qed.
+
+Lemma slash_join : forall l : list bytes, l <> [] ->
+  [47] ++ join [47] l = flat_map (fun x => 47 :: x) l.
+Proof.
+  induction l as [|x l IH]; intros H; [congruence|]. destruct l as [|y l'].
+  - cbn. now rewrite app_nil_r.
+  - rewrite join_cons2 by discriminate.
+    change (flat_map (fun x0 => 47 :: x0) (x :: y :: l'))
+      with ((47 :: x) ++ flat_map (fun x0 => 47 :: x0) (y :: l')).
+    rewrite <- IH by discriminate. cbn [app]. reflexivity.
+Qed.
+
+Lemma flat_map_brace : forall ks,
+  flat_map (fun u => 47 :: brace u) ks = flat_map (fun x => 47 :: x) (map brace ks).
+Proof. induction ks as [|u ks IH]; [reflexivity|]. cbn [flat_map map]. now rewrite IH. Qed.
+
+(* the documented paths for ordinary declarations (identifier names, no baseUrlPath override):
+   Get    = /<pkg>/<snake name>/q/{key}/{key}...
+   Events = /<pkg>/<snake name>/q/{key}/{key}.../events
+   over the primary and shard keys in declaration order, all of them request fields *)
+Theorem default_paths : forall e,
+  e_base_url e = [] -> ident (e_name e) = true -> no_colon (e_pkg e) = true ->
+  clean_path (query_base e) = query_base e ->
+  Forall (fun k => ident (uf_name (k_def k)) = true) (e_keys e) ->
+  nth 0 (query_paths e) [] = query_base e ++ flat_map (fun u => 47 :: brace u) (get_keys e)
+  /\ nth 2 (query_paths e) [] =
+       query_base e ++ flat_map (fun u => 47 :: brace u) (get_keys e) ++ bs "/events"
+  /\ query_params_ok e = true.
+Proof.
+  intros e Hb Hi Hp Hc Hk.
+  destruct (default_query_base e Hb Hi Hp) as [B1 B2].
+  assert (Hk' : Forall (fun k => no_slash (uf_name (k_def k)) = true) (e_keys e)).
+  { eapply Forall_impl; [|exact Hk]. intros k H. exact (proj2 (ident_no_colon_slash _ H)). }
+  destruct (get_events_paths e Hc Hk') as [P0 P2]. rewrite P0, P2, B1.
+  split; [|split; [|now apply query_params_always_ok]].
+  - destruct (get_keys e) as [|u ks]; [now rewrite app_nil_r|].
+    rewrite flat_map_brace, <- slash_join by discriminate. reflexivity.
+  - f_equal. rewrite slash_join by (destruct (map brace (get_keys e)); discriminate).
+    rewrite flat_map_app, flat_map_brace. reflexivity.
+Qed.
+
+(* component names are proto identifiers *)
+Theorem component_names_alnum : forall e suffix, forallb alnum (component_name e suffix) = true.
+Proof.
+  intros e suffix. unfold component_name. rewrite forallb_app, !to_camel_alnum. reflexivity.
+Qed.
+
+Theorem camel_name_starts_cap : forall e c r,
+  e_name e = c :: r -> is_letter c = true -> ident (c :: r) = true ->
+  exists c' t, camel_name e = c' :: t /\ is_cap c' = true.
+Proof.
+  intros e c r He Hc Hi. unfold camel_name. rewrite He. now apply to_camel_starts_cap.
+Qed.
+
+(* ---- the generated names never collide with each other ------------------------------------------- *)
+Lemma app_suffix_neq : forall (c a b : bytes), a <> b -> c ++ a <> c ++ b.
+Proof. intros c a b H E. apply app_inv_head in E. contradiction. Qed.
+
+Theorem generated_names_distinct : forall e,
+  NoDup [component_name e (bs "Keys"); component_name e (bs "Data"); component_name e (bs "Status");
+         component_name e (bs "State"); component_name e (bs "EventType"); component_name e (bs "Event")]
+  /\ NoDup [query_prefix e ++ bs "GetRequest"; query_prefix e ++ bs "GetResponse";
+            query_prefix e ++ bs "ListRequest"; query_prefix e ++ bs "ListResponse";
+            query_prefix e ++ bs "EventsRequest"; query_prefix e ++ bs "EventsResponse"].
+Proof.
+  intros e. unfold component_name. split.
+  - repeat constructor; cbn [In]; intros H;
+      repeat (destruct H as [H|H]; [apply app_inv_head in H; vm_compute in H; discriminate|]); exact H.
+  - repeat constructor; cbn [In]; intros H;
+      repeat (destruct H as [H|H]; [apply app_inv_head in H; vm_compute in H; discriminate|]); exact H.
+Qed.
+
+(* with distinct UpperCamel event names the options of the event oneof are distinct too: the
+   correspondence events <-> options is a bijection *)
+Theorem event_options_distinct : forall e,
+  Forall (fun ev => upper_word (ev_name ev) = true) (e_events e) ->
+  NoDup (map ev_name (e_events e)) ->
+  NoDup (map f_json (m_fields (event_type_msg e))) /\ NoDup (map fst (m_nested (event_type_msg e))).
+Proof.
+  intros e HU HN. unfold event_type_msg. cbn [m_fields m_nested]. rewrite !map_map. cbn [f_json fst].
+  split; [|exact HN].
+  induction (e_events e) as [|ev l IH]; [constructor|].
+  inversion HU as [|? ? Hev Hl]; subst. inversion HN as [|? ? Hnin Hnd]; subst.
+  cbn [map]. constructor; [|now apply IH].
+  intros Hin. apply in_map_iff in Hin. destruct Hin as [ev' [Heq Hin']].
+  apply Hnin. rewrite Forall_forall in Hl.
+  apply (to_lower_camel_injective_upper_word _ _ (Hl ev' Hin') Hev) in Heq. rewrite <- Heq.
+  now apply in_map.
+Qed.
+
+(* the List path carries exactly the shard keys *)
+Theorem list_path : forall e,
+  e_base_url e = [] -> ident (e_name e) = true -> no_colon (e_pkg e) = true ->
+  clean_path (query_base e) = query_base e ->
+  Forall (fun k => ident (uf_name (k_def k)) = true) (e_keys e) ->
+  nth 1 (query_paths e) [] = query_base e ++ flat_map (fun u => 47 :: brace u) (list_keys e)
+  /\ list_keys e = map k_def (filter (fun k => is_key_field (k_def k) && k_shard k) (e_keys e)).
+Proof.
+  intros e Hb Hi Hp Hc Hk. split; [|reflexivity].
+  destruct (default_query_base e Hb Hi Hp) as [B1 B2].
+  assert (Hl : Forall (fun x => no_slash (uf_name x) = true) (list_keys e)).
+  { unfold list_keys. apply Forall_map. apply Forall_forall. intros k Hin.
+    apply filter_In in Hin. destruct Hin as [Hin _]. rewrite Forall_forall in Hk.
+    exact (proj2 (ident_no_colon_slash _ (Hk k Hin))). }
+  unfold query_paths. cbn [nth].
+  rewrite path_join_plain by (assumption || apply query_base_not_root || now apply key_path_seg_ok).
+  unfold plain_join.
+  destruct (list_keys e) as [|u ks] eqn:El.
+  { cbn [key_path map join flat_map]. rewrite app_nil_r. exact B1. }
+  destruct (join [47] (key_path (u :: ks))) as [|c l] eqn:Ej.
+  - exfalso. cbn [key_path map] in Ej. destruct (map _ ks); cbn in Ej; discriminate.
+  - rewrite <- Ej.
+    change (query_base e ++ 47 :: join [47] (key_path (u :: ks)))
+      with (query_base e ++ [47] ++ join [47] (key_path (u :: ks))).
+    rewrite http_rule_path_app, B1. f_equal.
+    pose proof (http_rule_path_keys (u :: ks) [] Hl (Forall_nil _)) as H.
+    rewrite !app_nil_r in H. rewrite H by discriminate.
+    rewrite flat_map_brace, <- slash_join by discriminate. reflexivity.
 Qed.
